@@ -257,12 +257,12 @@ def run(ctx):
         tags.append({"corpus": fn, "finding": j.get("finding")})
     ncorpus = len(cases)
     # random command lines
-    for _ in range(700 if quick else 20000):
+    for _ in range(700 if quick else 12000):
         cases.append(c02eng.g_case(r))
         tags.append({})
     # every order of the words of small cases
     nperm_base = 0
-    for _ in range(14 if quick else 150):
+    for _ in range(14 if quick else 80):
         base = c02eng.g_case(r, two=r.chance(1, 2), nfiles=1)
         nwords = sum(len(ws) for _, ws in base["opts"])
         if nwords < 3 or nwords > (5 if quick else 6):
